@@ -14,13 +14,13 @@ use rustrtc::transports::dtls::{self, Certificate, DtlsState};
 use serde_json::{Value, json};
 use std::time::{Duration, Instant};
 
-fn expected_fp(mode: &str, peer: &Certificate, other: &Certificate, rng: &mut Rng) -> Option<String> {
+fn expected_fp(mode: &str, genuine_peer: &Certificate, nobody: &Certificate, rng: &mut Rng) -> Option<String> {
     // The expected fingerprint reaches the transport the way it does in a PeerConnection: through the
     // a=fingerprint attribute of a parsed session description.
     let raw = match mode {
         "none" => return None,
-        "match" => dtls::fingerprint(peer),
-        "mismatch" => dtls::fingerprint(other),
+        "match" => dtls::fingerprint(genuine_peer),
+        "mismatch" => dtls::fingerprint(nobody),
         x => panic!("bad fp mode {x}"),
     };
     // free presentation choices of the SDP attribute: hex case
@@ -67,17 +67,25 @@ async fn run_scenario(sc: &Value, rng: &mut Rng) -> Value {
     rustrtc::verif::set_enabled(true);
 
     let ops: Vec<Op> = sc["ops"].as_array().cloned().unwrap_or_default().iter().map(Op::from_json).collect();
+    // genuine client / server certificates, the adversary's, and one that nobody holds
     let cert_c = dtls::generate_certificate().expect("cert");
     let cert_s = dtls::generate_certificate().expect("cert");
     let cert_m = dtls::generate_certificate().expect("cert");
+    let cert_x = dtls::generate_certificate().expect("cert");
     let fp_c_mode = sc["fpC"].as_str().unwrap_or("match"); // what the client expects of the server
     let fp_s_mode = sc["fpS"].as_str().unwrap_or("none"); // what the server expects of the client
-    let exp_c = expected_fp(fp_c_mode, &cert_s, &cert_m, rng);
-    let exp_s = expected_fp(fp_s_mode, &cert_c, &cert_m, rng);
+    let exp_c = expected_fp(fp_c_mode, &cert_s, &cert_x, rng);
+    let exp_s = expected_fp(fp_s_mode, &cert_c, &cert_x, rng);
+    // which certificate (and key) each endpoint really holds: its own, or the adversary's (impersonation)
+    let held_c = if sc["idC"].as_str() == Some("certM") { cert_m.clone() } else { cert_c.clone() };
+    let held_s = if sc["idS"].as_str() == Some("certM") { cert_m.clone() } else { cert_s.clone() };
+    let mut mrand = [0u8; 32];
+    mrand.copy_from_slice(&rng.bytes(32));
 
     let mut proxy = Proxy::bind(ops).await.expect("proxy");
-    let mut c = Endpoint::build("C", true, cert_c, exp_c, proxy.c_side_addr).await.expect("client");
-    let mut s = Endpoint::build("S", false, cert_s, exp_s, proxy.s_side_addr).await.expect("server");
+    proxy.state.lock().adversary = Some(Adversary::new(cert_m.clone(), mrand));
+    let mut c = Endpoint::build("C", true, held_c, exp_c, proxy.c_side_addr).await.expect("client");
+    let mut s = Endpoint::build("S", false, held_s, exp_s, proxy.s_side_addr).await.expect("server");
     proxy.start(c.addr, s.addr);
     let t0 = Instant::now();
     rustrtc::verif::emit("net", "P", "reset", json!({"scenario": id, "fpC": fp_c_mode, "fpS": fp_s_mode}));
@@ -130,14 +138,16 @@ async fn run_scenario(sc: &Value, rng: &mut Rng) -> Value {
         obs["both_connected"] = json!(false);
     }
     // application data that surfaced without being sent by the harness (must be none)
-    let mut stray = 0;
+    let (mut stray_c, mut stray_s) = (0, 0);
     while c.app_rx.try_recv().is_ok() {
-        stray += 1;
+        stray_c += 1;
     }
     while s.app_rx.try_recv().is_ok() {
-        stray += 1;
+        stray_s += 1;
     }
-    obs["stray_app"] = json!(stray);
+    obs["stray_app"] = json!(stray_c + stray_s);
+    obs["stray_app_C"] = json!(stray_c);
+    obs["stray_app_S"] = json!(stray_s);
 
     rustrtc::verif::emit("net", "P", "end", json!({"scenario": id}));
     let (ops_out, originals, held) = {
